@@ -91,3 +91,24 @@ pub trait AsyncTraitPlain {
 pub trait MockallTrait {
     fn one(&self, a: i32, b: i32) -> i32;
 }
+
+#[entrait(delegate_by = ref)]
+#[async_trait::async_trait]
+pub trait MixedByRef {
+    fn label(&self, prefix: &str) -> String;
+    async fn total(&self, a: i32, b: i32) -> i32;
+}
+#[entrait(delegate_by = Borrow)]
+#[async_trait::async_trait]
+pub trait MixedByBorrow {
+    async fn total(&self, a: i32, b: i32) -> i32;
+    fn label(&self, prefix: &str) -> String;
+}
+#[entrait(delegate_by = ref)]
+pub trait GenericTraitRef2<K: 'static, V: 'static> {
+    fn get<'a>(&'a self, k: &'a K, v: &'a V) -> &'a V;
+}
+#[entrait(delegate_by = Borrow)]
+pub trait GenericTraitBorrow<K: 'static> {
+    fn get(&self, k: K, k2: K) -> K;
+}
